@@ -158,6 +158,14 @@ def prune_newest(ctx):
             if c.args and any(r[0] == 'param' and r[2] and r[2][-1] == 'secrets' for r in root_descr(body, c.args[0])):
                 muts.append(c)
     ctx.floor(len(ks), 1, 'RevisionMap::keep in prune')
+    # every requested right is visited: no adaptor that stops early or skips on the way to keep()
+    early = []
+    for body in lib.family_ext(F, pb.key):
+        early += body.calls(r'^std::iter::Iterator::(map_while|take_while|skip_while|take|skip|step_by|filter|find|find_map|any|all|position|nth|last)$')
+        early += [ts.branch for ts in lib.try_sites(body)]
+    ctx.check(not early, pb.key, 'prune visits every requested right',
+              'prune walks the requested rights through %s (line %d): the walk can stop or skip, and the rights not visited keep '
+              'their old secrets' % (early[0].name if early else '', early[0].ln if early else 0), 'plain loop over the rights', pb.where())
     for c in ks:
         v = lib.classify_scalar(c.body, c.args[2])
         ctx.check(v == ('const', 1), pb.key, 'keep(_, 1)',
